@@ -103,6 +103,36 @@ pub fn run(ctx: &Ctx) -> Result<()> {
 			out.line(&format!("chunks {k} {len} => {}", sizes.iter().map(|x| x.to_string()).collect::<Vec<_>>().join(",")));
 		}
 	}
+	// 3. sources that suspend (Poll::Pending + wake) before items and before the end, as readers doing I/O do; also with no work
+	//    in flight at that moment (all delays 0) and behind another parallel operator
+	for r in 0..(if ctx.thorough { 200 } else { 40 }) {
+		let len = match r { 0 => 0, 1 => 1, 2 => 2, _ => rng.range(2, if r % 5 == 0 { 600 } else { 40 }) as usize };
+		let slow = r % 2 == 1;
+		let delays: Vec<u32> = (0..len).map(|_| if slow { rng.below(300) as u32 } else { 0 }).collect();
+		let items: Vec<(TileCoord3, Blob)> = (0..len).map(|i| (coord_of(i), blob_of(i, delays[i]))).collect();
+		let mode = r % 4;
+		let susp: Vec<u8> = (0..len).map(|i| match mode { 0 => 1, 1 => (rng.below(4) as u8) * (rng.below(2) as u8), 2 => if i == 0 { 3 } else { 0 }, _ => if i + 1 == len { 2 } else { (i % 3 == 0) as u8 } }).collect();
+		let end_susp = (r % 3) as u8;
+		let d = format!("len={len} suspensions={:?}{} end={end_susp} delays={}", &susp[..susp.len().min(12)], if susp.len() > 12 { "..." } else { "" }, if slow { "random" } else { "0" });
+		let res = rt.block_on(async { suspending(items.clone(), susp.clone(), end_susp).map_blob_parallel(work).collect().await });
+		check_pairing("map-suspending-source", &format!("map over a suspending source {d}"), len, |_| true, &res, &mut viol);
+		let res = rt.block_on(async { suspending(items.clone(), susp.clone(), end_susp).filter_map_blob_parallel(|b| { let (i, _) = parse_blob(&b); let w = work(b); if i % 3 == 1 { None } else { Some(w) } }).collect().await });
+		check_pairing("filter_map-suspending-source", &format!("filter_map over a suspending source {d}"), len, |i| i % 3 != 1, &res, &mut viol);
+		// two parallel operators in a row (the shape of `from_debug | vectortiles_update_properties`)
+		let dl = delays.clone();
+		let res = rt.block_on(async { TileStream::from_coord_iter_parallel((0..len).map(coord_of), move |c| { let i = index_of(&c); Some(blob_of(i, dl[i])) }).map_blob_parallel(work).collect().await });
+		check_pairing("chained-parallel", &format!("from_coord_iter_parallel | map_blob_parallel {d}"), len, |_| true, &res, &mut viol);
+		let res = rt.block_on(async { suspending(items.clone(), susp.clone(), end_susp).map_blob_parallel(work).filter_map_blob_parallel(|b| { let i = result_index(&b).unwrap_or(0); if i % 5 == 0 { None } else { Some(b) } }).collect().await });
+		check_pairing("chained-parallel", &format!("suspending | map | filter_map {d}"), len, |i| i % 5 != 0, &res, &mut viol);
+		// plain consumers of a suspending source
+		let res = rt.block_on(async { suspending(items.clone(), susp.clone(), end_susp).collect().await });
+		if res.iter().map(|(c, _)| index_of(c)).collect::<Vec<_>>() != (0..len).collect::<Vec<_>>() { viol.push(V { kind: "collect-suspending-source", input: format!("collect {d}"), detail: format!("{} of {len} items", res.len()) }); }
+		let mut flat = Vec::new();
+		rt.block_on(async { suspending(items.clone(), susp.clone(), end_susp).for_each_buffered(7, |chunk| { for (c, _) in chunk { flat.push(index_of(&c)); } }).await });
+		if flat != (0..len).collect::<Vec<_>>() { viol.push(V { kind: "buffered", input: format!("for_each_buffered over a suspending source {d}"), detail: format!("{} of {len} items", flat.len()) }); }
+		*stats.entry("suspending_runs".into()).or_insert(0) += 6;
+		*stats.entry("long_runs".into()).or_insert(0) += 6;
+	}
 	stats.insert("reordered_runs".into(), reordered);
 	stats.insert("window_n".into(), n as u64);
 	let lines = out.lines;
@@ -115,6 +145,18 @@ pub fn run(ctx: &Ctx) -> Result<()> {
 		stats.iter().map(|(k, v)| format!("{}:{}", jstr(k), v)).collect::<Vec<_>>().join(",")));
 	s.finish();
 	Ok(())
+}
+
+/// a stream over `items` that returns Pending (and wakes itself) `susp[i]` times before item i and `end_susp` times before it ends
+fn suspending(items: Vec<(TileCoord3, Blob)>, susp: Vec<u8>, end_susp: u8) -> TileStream<'static> {
+	use std::task::Poll;
+	let mut it = items.into_iter().enumerate(); let mut left: Option<(u8, (TileCoord3, Blob))> = None; let mut end_left = end_susp; let mut done = false;
+	TileStream::from_stream(Box::pin(futures::stream::poll_fn(move |cx| {
+		if done { return Poll::Ready(None); }
+		if left.is_none() { match it.next() { Some((i, x)) => left = Some((susp[i], x)), None => { if end_left > 0 { end_left -= 1; cx.waker().wake_by_ref(); return Poll::Pending; } done = true; return Poll::Ready(None); } } }
+		let n = &mut left.as_mut().unwrap().0; if *n > 0 { *n -= 1; cx.waker().wake_by_ref(); return Poll::Pending; }
+		Poll::Ready(left.take().map(|(_, x)| x))
+	})))
 }
 
 fn num_cpus_get() -> usize { std::thread::available_parallelism().map(|n| n.get()).unwrap_or(1) }
